@@ -1,8 +1,8 @@
-\* repaired model, sequential, larger: empty chain at start, two accounts, a failing write
-\* measured: 4 069 866 / 16 724 536, depth 49 (distinct / generated states)
-CONSTANTS NTx = 3 Kind <- KindS Sender <- SenderS Nonce <- NonceS NAccs = 1 Accs <- MCAccs StartEmpty = TRUE
+\* repaired model, one caller at a time, two pops
+\* measured: 1 318 696 / 5 893 932, depth 40 (distinct / generated states)
+CONSTANTS NTx = 3 Kind <- KindS Sender <- SenderS Nonce <- NonceS NAccs = 1 Accs <- MCAccs StartEmpty = FALSE
   Max = 3 NPushers = 1 NConsumers = 0 Batch = 2
-  MaxPush = 5 MaxBlocks = 2 MaxFail = 0 MaxCrash = 1 MaxClose = 1 MaxPops = 2 MaxExecErr = 0 MaxFatal = 0
+  MaxPush = 4 MaxBlocks = 1 MaxFail = 0 MaxCrash = 1 MaxClose = 1 MaxPops = 2 MaxExecErr = 0 MaxFatal = 0
   DedupFix = TRUE OverflowFix = TRUE Mutant = "none"
 INIT Init
 NEXT Next
